@@ -85,6 +85,8 @@ type transRec struct {
 	Act     string   `json:"act"`
 	Base    string   `json:"base"`
 	Fault   string   `json:"fault"`
+	Comp    string   `json:"comp,omitempty"`  // pair scenarios: "a" | "b" (the scenario the action belongs to), "" cluster-wide
+	CBase   string   `json:"cbase,omitempty"` // pair scenarios: base without the scenario prefix
 	Post    int      `json:"post"`
 	Mids    []int    `json:"mids"`
 	Panic   string   `json:"panic"`
@@ -143,9 +145,18 @@ func (e *Explorer) Run(outPrefix string) error {
 	e.snaps[id0] = w.Snapshot()
 	e.node[id0] = true
 	e.queue = []int{id0}
-	for len(e.queue) > 0 {
-		id := e.queue[0]
-		e.queue = e.queue[1:]
+	// VERIF_ORDER: bfs (default) | dfs (deep, narrow: reaches the late phases within a small state budget) |
+	// mixed (alternating). The order only matters for truncated explorations.
+	order := os.Getenv("VERIF_ORDER")
+	for n := 0; len(e.queue) > 0; n++ {
+		var id int
+		if order == "dfs" || (order == "mixed" && n%2 == 1) {
+			id = e.queue[len(e.queue)-1]
+			e.queue = e.queue[:len(e.queue)-1]
+		} else {
+			id = e.queue[0]
+			e.queue = e.queue[1:]
+		}
 		snap := e.snaps[id]
 		delete(e.snaps, id) // expanded once
 		if e.Depth > 0 && e.depth[id] >= e.Depth {
@@ -217,7 +228,7 @@ func (e *Explorer) step(id int, snap *WorldSnapshot, a string) Result {
 	if i := strings.Index(a, "!"); i >= 0 {
 		base, fault = a[:i], a[i+1:]
 	}
-	rec := transRec{Pre: id, Act: a, Base: base, Fault: fault, Post: pid, Mids: mids, Panic: res.Panic, Err: res.Err != "", Crashed: res.Crashed, Requeue: res.Requeue, Writes: compactWrites(res.Writes)}
+	rec := transRec{Pre: id, Act: a, Base: base, Fault: fault, Comp: compOf(base), CBase: cbaseOf(base), Post: pid, Mids: mids, Panic: res.Panic, Err: res.Err != "", Crashed: res.Crashed, Requeue: res.Requeue, Writes: compactWrites(res.Writes)}
 	b, _ := json.Marshal(rec)
 	e.tr.Write(b)
 	e.tr.WriteByte('\n')
@@ -388,7 +399,7 @@ func RunReplayJSON(cfg Config, path string, out string, w0 interface{ Write([]by
 		if i := strings.Index(a, "!"); i >= 0 {
 			base, fault = a[:i], a[i+1:]
 		}
-		rec := transRec{Pre: pid, Act: a, Base: base, Fault: fault, Post: qid, Mids: mids, Panic: last.Panic, Err: last.Err != "", Crashed: last.Crashed, Requeue: last.Requeue, Writes: compactWrites(last.Writes)}
+		rec := transRec{Pre: pid, Act: a, Base: base, Fault: fault, Comp: compOf(base), CBase: cbaseOf(base), Post: qid, Mids: mids, Panic: last.Panic, Err: last.Err != "", Crashed: last.Crashed, Requeue: last.Requeue, Writes: compactWrites(last.Writes)}
 		b, _ := json.Marshal(rec)
 		trf.Write(b)
 		trf.Write([]byte("\n"))
@@ -433,4 +444,18 @@ func RunInit(cfg Config, out interface{ Write([]byte) (int, error) }) int {
 	out.Write(b)
 	out.Write([]byte("\n"))
 	return 0
+}
+
+func compOf(base string) string {
+	if strings.HasPrefix(base, "a:") || strings.HasPrefix(base, "b:") {
+		return base[:1]
+	}
+	return ""
+}
+
+func cbaseOf(base string) string {
+	if compOf(base) != "" {
+		return base[2:]
+	}
+	return ""
 }
